@@ -38,6 +38,8 @@ type Obligation struct {
 	Props     []string          `json:"props,omitempty"`
 	Bounded   bool              `json:"bounded,omitempty"`
 	Trace     []string          `json:"trace,omitempty"`
+	Replay    *ReplaySpec       `json:"replay,omitempty"`
+	ClauseFunc string           `json:"clause_func,omitempty"`
 }
 
 // Config of one unit run.
@@ -104,6 +106,8 @@ type Unit struct {
 	NAssumeCalls int
 	inInit   bool
 	cellByID map[int]*Cell
+	paramVals []Val
+	inputArr map[string]*Term
 	symIdxCells map[int]*ListObj
 	HavocLoops map[string]int
 	HavocAll int
@@ -139,6 +143,7 @@ func NewUnit(p *Program, target *ssa.Function, cfg Config) *Unit {
 	u.uf = map[string]bool{}
 	u.litArr = map[string]*Term{}
 	u.cellByID = map[int]*Cell{}
+	u.inputArr = map[string]*Term{}
 	u.symIdxCells = map[int]*ListObj{}
 	u.HavocLoops = map[string]int{}
 	u.S = NewSolver(cfg.Z3, cfg.QueryMs)
@@ -324,6 +329,7 @@ func (u *Unit) check(st *State, name, kind string, goal *Term, text string) bool
 	if o.Status == "proved" || (o.Status == "unknown" && r == "sat") {
 		o.Script = u.S.Script(goal, "z3")
 		o.Trace = append([]string(nil), st.trace...)
+		u.snapshotReplay(st, o)
 	}
 	if r == "sat" {
 		o.Status = "failed"
